@@ -147,6 +147,8 @@ impl Frontend {
     }
 
     fn node(&self) -> MutexGuard<'_, FrontendInternal> {
+        #[cfg(feature = "verif-hooks")]
+        crate::verif::hold("fe.lock", 0);
         self.node.lock().unwrap()
     }
 
